@@ -23,8 +23,17 @@ Example ex_doc_bytewise :
   reader (map (fun c => [c]) (render_dec ex_doc ex_tail)) 0 = (render_plain ex_doc, Ok tt).
 Proof. vm_compute. reflexivity. Qed.
 
-Example ex_doc_segs_nonempty : Forall nonempty (map (fun c => [c]) (render_dec ex_doc ex_tail)).
-Proof. vm_compute. repeat constructor; discriminate. Qed.
+Example ex_doc_segs_ok : runs_ok (map (fun c => [c]) (render_dec ex_doc ex_tail)).
+Proof. vm_compute. reflexivity. Qed.
+
+(* empty reads in between (at most 100 in a row) are a segmentation like any other *)
+Example ex_empty_reads_ok : runs_ok ([[123]; []; []; [125]; []] ++ repeat [] 99).
+Proof. vm_compute. reflexivity. Qed.
+Example ex_empty_reads : reader_dt ([[123]; []; []; [125]; []] ++ repeat [] 99) 0 true = ([123; 125], Ok tt).
+Proof. vm_compute. reflexivity. Qed.
+(* ... and 101 in a row make bufio give up *)
+Example ex_no_progress : reader ([[123]] ++ repeat [] 101 ++ [[125]]) 0 = ([], Err E_NOPROGRESS).
+Proof. vm_compute. reflexivity. Qed.
 
 (* the hypothesis of split_stable is satisfiable: a complete string literal *)
 Example ex_split_tok : split [34; 97; 34] false = Ok (Tok 3 [34; 97; 34]).
